@@ -707,14 +707,14 @@ class FixedArray
         size_t len = match_dimension(choice);
         match_dimension(other);
         FixedArray<T> tmp(len); // should use default construction but V3f doens't initialize
-        for (size_t i=0; i < len; ++i) tmp[i] = choice[i] ? (*this)[i] : other[i];
+        for (size_t i=0; i < len; ++i) tmp[i] = choice[i] ? const_cast<const FixedArray<T>&>(*this)[i] : other[i];
         return tmp;
     }
 
     FixedArray<T> ifelse_scalar(const FixedArray<int> &choice, const T &other) {
         size_t len = match_dimension(choice);
         FixedArray<T> tmp(len); // should use default construction but V3f doens't initialize
-        for (size_t i=0; i < len; ++i) tmp[i] = choice[i] ? (*this)[i] : other;
+        for (size_t i=0; i < len; ++i) tmp[i] = choice[i] ? const_cast<const FixedArray<T>&>(*this)[i] : other;
         return tmp;
     }
 
